@@ -146,6 +146,30 @@ Proof.
     rewrite <- Et. unfold T. ring.
 Qed.
 
+Lemma mul32_lt64 a c : 0 <= a < 2 ^ 32 -> 0 <= c < 2 ^ 32 -> 0 <= a * c < 2 ^ 64.
+Proof. intros Ha Hc. change (2 ^ 64) with (2 ^ 32 * 2 ^ 32). nia. Qed.
+
+Lemma div32_range a : 0 <= a < 2 ^ 64 -> 0 <= a / 2 ^ 32 < 2 ^ 32.
+Proof.
+  intros Ha. assert (0 < 2 ^ 32) by (apply pow2_pos; lia).
+  split; [apply Z.div_pos; lia|apply Z.div_lt_upper_bound; [lia|]].
+  change (2 ^ 32 * 2 ^ 32) with (2 ^ 64). lia.
+Qed.
+
+Lemma div32_ge1 a : 2 ^ 32 <= a -> 1 <= a / 2 ^ 32.
+Proof. intros Ha. apply Z.div_le_lower_bound; [apply pow2_pos|]; lia. Qed.
+
+Lemma bmul_res_range X Y : 0 <= X < 2 ^ 64 -> 0 <= Y < 2 ^ 64 ->
+  0 <= (X * Y + 2 ^ 63) / 2 ^ 64 < 2 ^ 64.
+Proof.
+  intros HX HY. assert (P : 0 < 2 ^ 64) by (vm_compute; reflexivity).
+  assert (P63 : 0 < 2 ^ 63) by (vm_compute; reflexivity).
+  assert (H6364 : 2 ^ 63 < 2 ^ 64) by (vm_compute; reflexivity).
+  split.
+  - apply Z.div_pos; [|lia]. nia.
+  - apply Z.div_lt_upper_bound; [lia|]. nia.
+Qed.
+
 Theorem bmul_ok b x y :
   2 ^ 32 <= mant x < 2 ^ 64 -> 2 ^ 32 <= mant y < 2 ^ 64 ->
   - 2 ^ 31 <= exp x + exp y -> exp x + exp y + 64 < 2 ^ 31 ->
@@ -153,55 +177,47 @@ Theorem bmul_ok b x y :
 Proof.
   intros Hx Hy He1 He2. destruct x as [mx ex], y as [my ey]. cbn [mant exp] in *.
   assert (P32 : 0 < 2 ^ 32) by (apply pow2_pos; lia).
-  assert (H64 : 2 ^ 64 = 2 ^ 32 * 2 ^ 32) by reflexivity.
   pose proof (mul_halves_identity mx my ltac:(lia) ltac:(lia)) as Hid. cbv zeta in Hid.
+  pose proof (bmul_res_range mx my ltac:(lia) ltac:(lia)) as Bres. rewrite Hid in Bres.
   unfold bmul. cbn [mant exp].
   change 4294967295 with (2 ^ 32 - 1). rewrite !land_mask by lia.
+  pose proof (div32_ge1 mx ltac:(lia)) as Bx1a. pose proof (div32_range mx ltac:(lia)) as Bx1.
+  pose proof (div32_ge1 my ltac:(lia)) as By1a. pose proof (div32_range my ltac:(lia)) as By1.
+  pose proof (Z.mod_pos_bound mx (2 ^ 32) P32) as Bx0.
+  pose proof (Z.mod_pos_bound my (2 ^ 32) P32) as By0.
   set (x1 := mx / 2 ^ 32) in *. set (x0 := mx mod 2 ^ 32) in *.
   set (y1 := my / 2 ^ 32) in *. set (y0 := my mod 2 ^ 32) in *.
-  assert (Bx1 : 1 <= x1 < 2 ^ 32).
-  { unfold x1. split; [apply Z.div_le_lower_bound; lia|apply Z.div_lt_upper_bound; lia]. }
-  assert (By1 : 1 <= y1 < 2 ^ 32).
-  { unfold y1. split; [apply Z.div_le_lower_bound; lia|apply Z.div_lt_upper_bound; lia]. }
-  assert (Bx0 : 0 <= x0 < 2 ^ 32) by (apply Z.mod_pos_bound; lia).
-  assert (By0 : 0 <= y0 < 2 ^ 32) by (apply Z.mod_pos_bound; lia).
-  rewrite debug_assert_true by lia. cbn [bind].
-  rewrite debug_assert_true by lia. cbn [bind].
-  assert (BA : 0 <= x1 * y0 < 2 ^ 64) by nia.
-  assert (BB : 0 <= x0 * y1 < 2 ^ 64) by nia.
-  assert (BC : 0 <= x0 * y0 < 2 ^ 64) by nia.
-  assert (BD : 0 <= x1 * y1 < 2 ^ 64) by nia.
+  clearbody x1 x0 y1 y0.
+  replace (x1 =? 0) with false by lia. replace (y1 =? 0) with false by lia. cbn [negb].
+  rewrite !debug_assert_true by reflexivity. cbn [bind].
+  pose proof (mul32_lt64 x1 y0 ltac:(lia) ltac:(lia)) as BA.
+  pose proof (mul32_lt64 x0 y1 ltac:(lia) ltac:(lia)) as BB.
+  pose proof (mul32_lt64 x0 y0 ltac:(lia) ltac:(lia)) as BC.
+  pose proof (mul32_lt64 x1 y1 ltac:(lia) ltac:(lia)) as BD.
   unfold u64_mul. rewrite !uop_ok by assumption. cbn [bind].
   rewrite !land_mask by lia.
   set (A := x1 * y0) in *. set (B := x0 * y1) in *. set (C := x0 * y0) in *. set (D := x1 * y1) in *.
-  assert (BlA : 0 <= A mod 2 ^ 32 < 2 ^ 32) by (apply Z.mod_pos_bound; lia).
-  assert (BlB : 0 <= B mod 2 ^ 32 < 2 ^ 32) by (apply Z.mod_pos_bound; lia).
-  assert (BhA : 0 <= A / 2 ^ 32 < 2 ^ 32).
-  { split; [apply Z.div_pos; lia|apply Z.div_lt_upper_bound; lia]. }
-  assert (BhB : 0 <= B / 2 ^ 32 < 2 ^ 32).
-  { split; [apply Z.div_pos; lia|apply Z.div_lt_upper_bound; lia]. }
-  assert (BhC : 0 <= C / 2 ^ 32 < 2 ^ 32).
-  { split; [apply Z.div_pos; lia|apply Z.div_lt_upper_bound; lia]. }
-  assert (H31 : 2 ^ 31 < 2 ^ 32) by (vm_compute; reflexivity).
-  assert (H31p : 0 < 2 ^ 31) by (vm_compute; reflexivity).
-  assert (H3264 : 4 * 2 ^ 32 < 2 ^ 64) by (vm_compute; reflexivity).
+  clearbody A B C D.
+  pose proof (Z.mod_pos_bound A (2 ^ 32) P32) as BlA.
+  pose proof (Z.mod_pos_bound B (2 ^ 32) P32) as BlB.
+  pose proof (div32_range A BA) as BhA. pose proof (div32_range B BB) as BhB.
+  pose proof (div32_range C BC) as BhC.
+  set (lA := A mod 2 ^ 32) in *. set (lB := B mod 2 ^ 32) in *.
+  set (hA := A / 2 ^ 32) in *. set (hB := B / 2 ^ 32) in *. set (hC := C / 2 ^ 32) in *.
+  clearbody lA lB hA hB hC.
+  assert (H31 : 2 ^ 31 = 2147483648) by reflexivity.
+  assert (H32 : 2 ^ 32 = 4294967296) by reflexivity.
+  assert (H64 : 2 ^ 64 = 18446744073709551616) by reflexivity.
   unfold u64_add.
-  rewrite (uop_ok b 64 (A mod 2 ^ 32 + B mod 2 ^ 32)) by lia. cbn [bind].
-  rewrite (uop_ok b 64 (A mod 2 ^ 32 + B mod 2 ^ 32 + C / 2 ^ 32)) by lia. cbn [bind].
-  rewrite (uop_ok b 64 (A mod 2 ^ 32 + B mod 2 ^ 32 + C / 2 ^ 32 + 2 ^ 31)) by lia. cbn [bind].
-  set (tmp := A mod 2 ^ 32 + B mod 2 ^ 32 + C / 2 ^ 32 + 2 ^ 31) in *.
-  assert (Bt : 0 <= tmp / 2 ^ 32).
-  { apply Z.div_pos; [unfold tmp|]; lia. }
-  (* the final sum is the rounded high word, hence below 2^64; so are its partial sums *)
-  assert (Bres : 0 <= (mx * my + 2 ^ 63) / 2 ^ 64 < 2 ^ 64).
-  { split.
-    - apply Z.div_pos; [|lia]. assert (0 < 2 ^ 63) by (vm_compute; reflexivity). nia.
-    - apply Z.div_lt_upper_bound; [lia|].
-      assert (2 ^ 63 < 2 ^ 64) by (vm_compute; reflexivity). nia. }
-  rewrite Hid in Bres.
-  rewrite (uop_ok b 64 (D + A / 2 ^ 32)) by lia. cbn [bind].
-  rewrite (uop_ok b 64 (D + A / 2 ^ 32 + B / 2 ^ 32)) by lia. cbn [bind].
-  rewrite (uop_ok b 64 (D + A / 2 ^ 32 + B / 2 ^ 32 + tmp / 2 ^ 32)) by lia. cbn [bind].
+  rewrite (uop_ok b 64 (lA + lB)) by lia. cbn [bind].
+  rewrite (uop_ok b 64 (lA + lB + hC)) by lia. cbn [bind].
+  rewrite (uop_ok b 64 (lA + lB + hC + 2 ^ 31)) by lia. cbn [bind].
+  set (tmp := lA + lB + hC + 2 ^ 31) in *.
+  assert (Bt : 0 <= tmp / 2 ^ 32) by (apply Z.div_pos; [unfold tmp|]; lia).
+  set (hT := tmp / 2 ^ 32) in *. clearbody hT. clear tmp.
+  rewrite (uop_ok b 64 (D + hA)) by lia. cbn [bind].
+  rewrite (uop_ok b 64 (D + hA + hB)) by lia. cbn [bind].
+  rewrite (uop_ok b 64 (D + hA + hB + hT)) by lia. cbn [bind].
   unfold i32_add. rewrite (sop32_ok b (ex + ey)) by lia. cbn [bind].
   rewrite sop32_ok by lia. cbn [bind].
   rewrite Hid. reflexivity.
@@ -349,7 +365,7 @@ Proof.
   rewrite log2_exp_ok by lia. reflexivity.
 Qed.
 
-Theorem get_small_int_ok b i : 0 <= i < BELL_STEP BTABLES ->
+Theorem get_small_int_ok i : 0 <= i < BELL_STEP BTABLES ->
   get_small_int BTABLES i = Ok (10 ^ i).
 Proof.
   intros Hi. destruct bt_props_true as [_ _ _ _ _ Hlen _ _].
